@@ -168,7 +168,7 @@ def step (sp : SpecSt) (model : State) (cmd : String) (impl : String) : SpecOut 
   -- a read: expectation `e` when a transaction is open, plain error otherwise
   let rd (tag : String) (e : Expect) (taint : Option String := none) : SpecOut :=
     if !canRead then { st := sp, expect := some (ex "err") }
-    else { st := sp, expect := some e, taint := if conflict tag then some "D-NO-RYW" else taint }
+    else { st := sp, expect := some e, taint := if conflict tag then some "D-NO-RYW" else taint, sticky := false }
   -- a mutation: applies `w'` to the working copy when the implementation accepted the call
   let wr (tag : String) (w' : SpecDB) (e : Expect) (taint : Option String := none) (reads : Bool := false) : SpecOut :=
     if !canWrite then { st := sp, expect := some (ex "err") }
